@@ -27,7 +27,7 @@ fn rule_text(names: &[&str; 3], cond: &str) -> String {
 /// atoms.
 pub fn assignment_docs() -> Vec<DObj> {
     let mut out = vec![];
-    for extra in 0..2 {
+    for extra in 0..3 {
         for a in 0..3 {
             for b in 0..3 {
                 for c in 0..3 {
@@ -47,6 +47,16 @@ pub fn assignment_docs() -> Vec<DObj> {
                         d.set("s", DocVal::s("x"));
                         d.set("t", DocVal::s("x"));
                         d.set("b1", DocVal::Bool(true));
+                    }
+                    if extra == 2 {
+                        // the other way round, so that every comparison atom is true in one setting
+                        d.set("n", DocVal::Int(0));
+                        d.set("n1", DocVal::Int(3));
+                        d.set("n2", DocVal::UInt(2));
+                        d.set("f1", DocVal::s("1"));
+                        d.set("s", DocVal::s("x"));
+                        d.set("t", DocVal::s("y"));
+                        d.set("b1", DocVal::Bool(false));
                     }
                     out.push(d);
                 }
@@ -378,7 +388,8 @@ pub fn run(tier: &str, seed: u64) -> i32 {
         three-valued result equals the reference evaluation; (3) fully parenthesising by that tree, parenthesising \
         either top-level operand, doubling or padding spaces and adding outer parentheses leave all verdicts \
         unchanged; (4) renaming A,B,C to keyword-prefixed words (android/order/nothing, allow/offline/integer, \
-        stringent/notes/flt1) leaves them unchanged. Non-trivial: >= 2 different operator kinds; distinct by token \
+        stringent/notes/flt1) leaves them unchanged. Plus every three-operand chain (or / and-or mixes, negated) over \
+        10 atoms incl. field-to-field cast comparisons; three settings of the cast fields. Every document is also matched against the rule optimised with the default switches and with one further switch set; a verdict that differs from the rule as loaded must be explained by the known findings K1 / K2 (relaxed reference for that switch set). Non-trivial: >= 2 different operator kinds; distinct by token \
         shape."
         .into();
     report.assumptions = vec!["associativity of and/or is not observable through verdicts in this logic, so it is pinned structurally on the unoptimised expression".into()];
@@ -390,6 +401,43 @@ pub fn run(tier: &str, seed: u64) -> i32 {
     let subs: Vec<Report> = par_run(|w, n| {
         let mut sub = report.sub();
         for (i, c) in conds.iter().enumerate() {
+            if i % n != w {
+                continue;
+            }
+            let mut case = Case::new("c05.condition");
+            case.texts = vec![c.clone()];
+            let out = judge(&case);
+            sub.record(&case, out);
+        }
+        sub
+    });
+    for s in subs {
+        report.merge(s);
+    }
+    // chains of three operands over identifiers and cast comparisons that share fields (among them
+    // field-to-field comparisons, which only the condition can express), under each connective mix
+    let atoms = [
+        "A", "B", "int(n1) > int(n2)", "int(n1) == 1", "int(n1) >= 3", "flt(n1) <= flt(n2)", "str(s) == str(t)", "int(n2) < 5",
+        "int(n2) == int(n1)", "flt(n1) > 1.5",
+    ];
+    let mut chains: Vec<String> = vec![];
+    for x in atoms {
+        for y in atoms {
+            for z in atoms {
+                if x == y || y == z {
+                    continue;
+                }
+                chains.push(format!("{x} or {y} or {z}"));
+                chains.push(format!("not ({x} or {y} or {z})"));
+                chains.push(format!("{x} and {y} or {z}"));
+                chains.push(format!("{x} or {y} and not {z}"));
+            }
+        }
+    }
+    report.label_n("cast_chain_conditions", chains.len() as u64);
+    let subs: Vec<Report> = par_run(|w, n| {
+        let mut sub = report.sub();
+        for (i, c) in chains.iter().enumerate() {
             if i % n != w {
                 continue;
             }
